@@ -442,3 +442,44 @@ Example C13_example_history_u :
     CItemCollection [] [OpAppend 0; OpAppend 5; OpContains 5; OpRemove 5; OpContains 0] =
   ([], [(1, None); (1, None); (1, Some true); (0, None); (0, Some false)]).
 Proof. split; vm_compute; reflexivity. Qed.
+
+(* ---- the wide instance EXTENDS the plain one, as whole models (builder b56) ----
+   The containers look at the IRI comparison only on the ids that occur in the pool and in the state (Append / Remove
+   keep, drop or add members of the pool; the IRI list their links): two models of IRI.Equals that agree on a set of
+   strings holding the empty string give ONE run - final contents and the whole trace - for EVERY history
+   (C13_run_congruence).  With C14_u_agrees_plain and the empty string (C09_plain_or_empty_agree): over pools whose
+   ids lie in iri_dom or are unset, c_run_u IS c_run, so sections 1-3 and the wide section speak of one function there. *)
+From AP.Model Require Import IdsIn.
+From AP.Proofs Require Import CollCongrP PlainInstUP.
+Theorem C13_run_congruence : forall dom : bytes -> bool, dom [] = true ->
+  forall e1 e2 : bytes -> bytes -> bool -> bool,
+  (forall a b cs, dom a = true -> dom b = true -> e1 a b cs = e2 a b cs) ->
+  forall pool, Forall (fun x => ids_in dom x = true) pool ->
+  forall c ops st, Forall (fun x => ids_in dom x = true) st -> CoG.c_run e1 pool c st ops = CoG.c_run e2 pool c st ops.
+Proof. exact c_run_congr. Qed.
+Theorem C13_u_agrees_plain : forall pool c st ops,
+  forallb (ids_in plain_or_empty) pool = true -> forallb (ids_in plain_or_empty) st = true ->
+  c_run_u pool c st ops = c_run pool c st ops.
+Proof. exact c_run_u_plain. Qed.
+Theorem C13_u_agrees_plain_dom : forall pool c st ops,
+  forallb (ids_in iri_dom) pool = true -> forallb (ids_in iri_dom) st = true ->
+  c_run_u pool c st ops = c_run pool c st ops.
+Proof. exact c_run_u_plain_dom. Qed.
+(* non-vacuity: a pool in mixed shapes (IRI, object, actor, activity with an embedded actor, an id-less object), all
+   ids in iri_dom or unset; a history on two container kinds; and the wide pool above is outside (no id of it is in
+   iri_dom), where the two models differ *)
+Example C13_example_u_agrees_plain :
+  let pool := [IIri false (B "https://example.com/users/alice");
+               IObj true KObject [(F_ID, FStr (B "https://example.com/notes/1?b=2&a=1")); (F_Type, FStr (B "Note"))];
+               IObj true KActor [(F_ID, FStr (B "https://example.com/users/bob")); (F_Type, FStr (B "Person"))];
+               IObj true KActivity [(F_ID, FStr (B "https://example.com/activities/7")); (F_Type, FStr (B "Follow"));
+                                    (F_Actor, FItem (IIri false (B "HTTPS://EXAMPLE.com/users/bob/")))];
+               IObj true KObject [(F_Type, FStr (B "Note"))]] in
+  let ops := [OpAppend 1; OpAppend 0; OpAppend 1; OpAppend 4; OpContains 0; OpRemove 1; OpContains 1; OpAppend 3; OpContains 4] in
+  forallb (ids_in plain_or_empty) pool = true /\ forallb (ids_in iri_dom) pool = true /\
+  c_run_u pool COrdered [] ops = c_run pool COrdered [] ops /\
+  fst (c_run_u pool CIRIs [] ops) = map (fun i => IIri false (lnk (pget pool i))) [1; 0; 4; 3] /\
+  forallb (ids_in plain_or_empty) ex_pool_u = false /\
+  c_run_u (ex_pool_u ++ [IIri false (B "https://example.com/users/Alice")]) CItemCollection [] [OpAppend 0; OpAppend 5]
+  <> c_run (ex_pool_u ++ [IIri false (B "https://example.com/users/Alice")]) CItemCollection [] [OpAppend 0; OpAppend 5].
+Proof. cbv zeta. repeat split; vm_compute; try reflexivity; discriminate. Qed.
